@@ -893,6 +893,9 @@ func (fr *Frame) atCall(st *State, c *ast.CallExpr) {
 		return
 	}
 	fr.runAt(st, normKey(fr.src(c)), c)
+	// "at [call <callee expression>]": every call of that callee, whatever its arguments;
+	// $arg0, $arg1, ... name the argument values
+	fr.runAt(st, normKey("call "+fr.src(c.Fun)), c)
 }
 
 func (fr *Frame) runAt(st *State, key string, s ast.Node) {
@@ -943,6 +946,15 @@ func (fr *Frame) runAt(st *State, key string, s ast.Node) {
 		}
 		for _, a := range as.Asserts {
 			env := fr.specEnv(st)
+			if c, isCall := s.(*ast.CallExpr); isCall && strings.HasPrefix(key, "call ") {
+				tmp := st.clone()
+				for i, arg := range c.Args {
+					if _, isLit := ast.Unparen(arg).(*ast.FuncLit); isLit {
+						continue
+					}
+					env.names[fmt.Sprintf("$arg%d", i)] = fr.expr(tmp, arg)
+				}
+			}
 			t, err := fr.evalClause(env, a)
 			lab := a.Label
 			if err != nil {
